@@ -109,6 +109,27 @@ def c08_edge(ctx, I, t):
     table(ctx, 'RANGE-END', 'RANGE:SixtyCycleDay::from_solar_day', [(si, n) for si in range(len(scen)) for n in scen[si][3]], view, view_orc,
           'year and month pillars of the first days of 0001 (governing Jie and Lichun rule reach into year 0) and the last days of 9999',
           fmt(scen), fn_site(p, 'SixtyCycleDay::from_solar_day'))
+    c08_edge_instant(ctx, I, t)
+
+
+def c08_edge_instant(ctx, I, t):
+    from rules.c08 import oracle_time
+    p = ctx.prog
+    scen = edge_scenarios()
+
+    def view(x):
+        si, n, s_ = x
+        cm = CalModel(I, scen[si][1], scen[si][2])
+        h = I.call('SixtyCycleHour::from_solar_time', [cm.solar_time_n(n, s_)])
+        return (t.name(t.m(h, 'get_year')), t.name(t.m(h, 'get_month')), t.idx(t.m(h, 'get_day')))
+
+    def view_orc(x):
+        si, n, s_ = x
+        return oracle_time(scen[si][1], CAL.from_jdn(n)[0], n, s_) + (((n + 49) % 60 + (1 if s_ >= 82800 else 0)) % 60,)
+    dom = [(si, n, s_) for si in range(len(scen)) for n in (scen[si][3][:8] + scen[si][3][-8:]) for s_ in (0, 43200, 84600) if not (si == 0 and n == LAST and s_ >= 82800)]
+    table(ctx, 'RANGE-END', 'RANGE:SixtyCycleHour::from_solar_time', dom, view, view_orc,
+          'instant-level year / month / day pillars on the first days of 0001 (governing Jie in year 0) and the last days of 9999 (23:xx of the very last day excepted: its day pillar is that of a day outside the range)',
+          lambda x: '%s %d-%02d-%02d +%ds' % ((scen[x[0]][0],) + CAL.from_jdn(x[1]) + (x[2],)), fn_site(p, 'SixtyCycleHour::from_solar_time'))
 
 
 def c13_edge(ctx, I, t):
@@ -127,3 +148,29 @@ def c13_edge(ctx, I, t):
         return ([r['month'] for r in recs], len(recs), sum(r['count'] for r in recs))
     table(ctx, 'RANGE-END', 'RANGE:LunarYear::get_months', [9999], lyear, lyear_orc,
           'the last supported lunar year lists its months and has a day count (no month of lunar year 10000 is needed for that)', str, fn_site(p, 'LunarYear::get_months'))
+
+
+def c09_edge(ctx, I, t):
+    """inverse search for instants on the first / last days of the range, searched over a year range that starts / ends there"""
+    p = ctx.prog
+    scen = edge_scenarios()
+    ctx.rule('RANGE-END', 'the first and last days / lunar years of the supported range: the answer exists although a neighbouring term, month or day lies outside the range')
+
+    def search(x):
+        si, inst, rng = x
+        CalModel(I, scen[si][1], scen[si][2])
+        cm = CalModel(I, scen[si][1], scen[si][2])
+        ec = t.m(t.m(cm.solar_time(*inst), 'get_lunar_hour'), 'get_eight_char')
+        want = t.name(ec)
+        res = t.m(ec, 'get_solar_times', rng[0], rng[1])
+        sound = all(t.name(t.m(t.m(r, 'get_lunar_hour'), 'get_eight_char')) == want for r in res)
+        inside = any((py(t.m(r, 'get_year')), py(t.m(r, 'get_month')), py(t.m(r, 'get_day'))) == inst[:3] and (py(t.m(r, 'get_hour')) + 1) // 2 == (inst[3] + 1) // 2 for r in res)
+        return (sound, inside)
+    dom_start = [(1, (1, 1, 2, 12, 0, 0), (1, 30)), (1, (1, 1, 4, 8, 0, 0), (1, 1)), (1, (1, 1, 20, 10, 0, 0), (1, 30)), (1, (1, 2, 12, 10, 0, 0), (1, 1))]
+    dom_end = [(0, (9999, 12, 12, 10, 0, 0), (9960, 9999)), (0, (9999, 12, 20, 14, 0, 0), (9999, 9999)), (0, (9999, 12, 31, 10, 0, 0), (9999, 9999))]
+    f_ = lambda x: '%s searched over %s' % ('%04d-%02d-%02d %02d:00' % x[1][:4], x[2])
+    table(ctx, 'RANGE-END', 'RANGE:EightChar::get_solar_times:first-year', dom_start, search, lambda x: (True, True),
+          'the inverse search finds an instant of January / February 0001 when the searched range starts with year 1 (its year pillar is that of year 0 before Lichun)',
+          f_, fn_site(p, 'EightChar::get_solar_times'))
+    table(ctx, 'RANGE-END', 'RANGE:EightChar::get_solar_times:last-year', dom_end, search, lambda x: (True, True),
+          'the inverse search finds an instant of December 9999 when the searched range ends with year 9999', f_, fn_site(p, 'EightChar::get_solar_times'))
